@@ -27,7 +27,8 @@ META = {
         " Round 7: rule MEMO over the whole package - a result cache is keyed by everything the skipped computation reads (by value, not identity / length) and a hit restores every attribute a miss sets; lru_cache'd functions depend on their parameters only."
         ' Round 8: MEMO also sees last-key caches, chained stores and fills that ignore the condition of their look-up; a Config object is not rewritten in place.'
         ' Round 9: _UNDEF_* / _ERR_* placeholders are rebuilt from parts of their own kind; a filtered **kwargs dict does not fall back to an import-time MasterConfig default.'
-        ' Round 10: a class-level store targets an attribute the class declares or the package reads (`cls._CACHE = {}` beside `TRS.__CACHE` is reported); evicting entries of a memo is not a mutation of shared state.'),
+        ' Round 10: a class-level store targets an attribute the class declares or the package reads (`cls._CACHE = {}` beside `TRS.__CACHE` is reported); evicting entries of a memo is not a mutation of shared state.'
+        ' Round 11: _recompile empties the cache on every path (a condition comparing the new pattern with the attribute it has just overwritten never holds); only a reader that branches on _USE_CACHE counts.'),
     'families': ['ESCAPE', 'GLOBALS', 'PURITY', 'FORWARD', 'DEADPARAM', 'SIB-DEFAULTS'],
 }
 
@@ -41,14 +42,28 @@ def placeholder_kinds(ctx, rule='TBL'):
     for fi in ctx.repo.funcs.values():
         if not fi.module.name.endswith(('trs.trs', 'config.master_config')):
             continue
+        pairs = []
         for a in walk_local(fi.node):
             if isinstance(a, ast.Assign) and isinstance(a.targets[0], ast.Attribute):
-                tgt = a.targets[0].attr
+                pairs.append((a, a.targets[0], a.value))
+            elif isinstance(a, ast.Assign) and isinstance(a.targets[0], ast.Tuple) and isinstance(a.value, ast.Tuple) \
+                    and len(a.targets[0].elts) == len(a.value.elts):
+                pairs += [(a, t, v) for t, v in zip(a.targets[0].elts, a.value.elts) if isinstance(t, ast.Attribute)]
+        for a, t_, v_ in pairs:
+            if True:
+                tgt = t_.attr
                 kind = 'UNDEF' if '_UNDEF_' in tgt else 'ERR' if '_ERR_' in tgt else None
                 if kind is None:
                     continue
                 other = 'ERR' if kind == 'UNDEF' else 'UNDEF'
-                parts = [x.attr for x in ast.walk(a.value) if isinstance(x, ast.Attribute) and (f"_{other}_" in x.attr or f"_{kind}_" in x.attr)]
+                parts = [x.attr for x in ast.walk(v_) if isinstance(x, ast.Attribute) and (f"_{other}_" in x.attr or f"_{kind}_" in x.attr)]
+                # parts held in local names first (`undef_twprge = MC._UNDEF_TWP + MC._UNDEF_RGE`)
+                for nm_ in [x for x in ast.walk(v_) if isinstance(x, ast.Name)]:
+                    try:
+                        parts += [at[1].split('.')[-1] for at in flow.provenance(fi.node, nm_)
+                                  if at[0] == 'attr' and (f"_{other}_" in at[1] or f"_{kind}_" in at[1])]
+                    except Exception:
+                        pass
                 if not parts:
                     continue
                 n += 1
@@ -132,6 +147,7 @@ def check(ctx):
     ctx.attempt(_globals_inventory)
     ctx.attempt(_class_writes)
     ctx.attempt(_class_stores_nobody_reads)
+    ctx.attempt(_recompile_clears_the_cache)
     ctx.attempt(_mutable_defaults)
     ctx.attempt(_class_level_containers)
     ctx.attempt(calltime_defaults)
@@ -441,6 +457,20 @@ def _escape(ctx):
         else:
             ok = isinstance(r.value, ast.Dict)
             roots = {('expr', norm(r.value))}
+            if not ok and isinstance(r.value, ast.Call):
+                # `return TRS._compile_dict(...)`: a helper whose every return is a dict display builds it afresh
+                node_ = flow.RESOLVER(dotted(r.value.func) or '', r.value, fi.node) if flow.RESOLVER else None
+                if node_ is None:
+                    ctx.undecided('ESCAPE', 'trs_to_dict returns a dict built in this call',
+                                  f"`{norm(r.value)[:50]}`: the helper that makes the result was not resolved")
+                    continue
+                hrets = [x for x in ast.walk(node_) if isinstance(x, ast.Return) and x.value is not None]
+                ok = bool(hrets) and all(isinstance(x.value, (ast.Dict, ast.DictComp)) or (
+                    isinstance(x.value, ast.Call) and dotted(x.value.func) == 'dict') for x in hrets)
+                if not ok:
+                    ctx.undecided('ESCAPE', 'trs_to_dict returns a dict built in this call',
+                                  f"`{norm(r.value)[:50]}`: what the helper returns was not recognised as a fresh dict")
+                    continue
         ctx.check(ok, 'ESCAPE', 'trs_to_dict returns a dict built in this call',
                   f"roots {sorted(roots)}",
                   f"`{norm(r)}` can return {sorted(roots)}: not a fresh dict (shared with the cache / a TRS object)",
@@ -542,7 +572,18 @@ def _cache_purity(ctx):
     for f2 in ctx.repo.funcs.values():
         for n in walk_local(f2.node):
             if isinstance(n, ast.Attribute) and n.attr == '_USE_CACHE' and isinstance(n.ctx, ast.Load):
-                readers.add(f2.qualname)
+                # only a reader that BRANCHES on the switch can make a result depend on it
+                # (`return bool(cls._USE_CACHE), len(cache)` in a diagnostics helper cannot)
+                p_ = parent(n)
+                branching = False
+                while p_ is not None and not isinstance(p_, (ast.stmt,)):
+                    if isinstance(p_, (ast.IfExp, ast.BoolOp, ast.Compare)) or (isinstance(p_, ast.UnaryOp) and isinstance(p_.op, ast.Not)):
+                        branching = True
+                    p_ = parent(p_)
+                if isinstance(p_, (ast.If, ast.While)) and any(x is n for x in ast.walk(p_.test)):
+                    branching = True
+                if branching:
+                    readers.add(f2.qualname)
     ctx.check(readers <= {'TRS._cache_trs_to_dict', cache_writer(ctx).qualname}, 'PURITY', '_USE_CACHE only gates the cache write',
               detail_bad=f"_USE_CACHE is read by {sorted(readers)}", key="PURITY|_USE_CACHE|readers")
 
@@ -610,3 +651,49 @@ def _class_stores_nobody_reads(ctx):
         ctx.ok('GLOBALS', 'every class-level attribute store targets an attribute the class declares or the package reads',
                f"{n} stores (`cls.X = ...` / `Class.X = ...`)")
     return n
+
+
+def _recompile_clears_the_cache(ctx):
+    """Whatever re-derives the placeholders / the unpacker pattern
+    (TRS._recompile) must empty the cache on every path: cached break-downs
+    were computed under the previous placeholders.  A conditional clear is
+    judged by its condition: one that compares the new pattern with the
+    attribute AFTER the attribute was overwritten is always false."""
+    try:
+        fi = ctx.repo.func('TRS._recompile')
+    except AnalysisError:
+        ctx.undecided('PURITY', '_recompile empties the cache on every path', 'TRS._recompile not found')
+        return
+    calls = [c for c in walk_local(fi.node) if isinstance(c, ast.Call) and (dotted(c.func) or '').split('.')[-1] == '_clear_cache']
+    resets = [a for a in walk_local(fi.node) if isinstance(a, ast.Assign) and any(
+        isinstance(t, ast.Attribute) and t.attr.endswith('__CACHE') for t in a.targets)]
+    sites = calls + resets
+    construct = '_recompile empties the cache on every path'
+    if not sites:
+        ctx.violation('PURITY', construct, "TRS._recompile() no longer empties TRS.__CACHE: after the placeholders / the pattern "
+                      "changed, TRS objects are served break-downs computed under the old ones", key="PURITY|_recompile|no-clear",
+                      where=common.loc(fi, fi.node))
+        return
+    cfg, _rd = flow.analyse(fi.node)
+    st = [enclosing_stmt(x) for x in sites]
+    every = cfg.must_pass(cfg.entry, [cfg.node_of(s_) for s_ in st])
+    if every:
+        ctx.ok('PURITY', construct, f"{len(sites)} clearing statement(s), on every path")
+        return
+    # conditional: is the condition a comparison with an attribute that was already overwritten?
+    for s_ in st:
+        for t, pol in guards(s_):
+            attrs_in_test = {norm(x) for x in ast.walk(t) if isinstance(x, ast.Attribute) and norm(x).startswith(('cls.', 'TRS.', 'self.'))}
+            for a in walk_local(fi.node):
+                if isinstance(a, ast.Assign) and a.lineno < s_.lineno:
+                    for tg in a.targets:
+                        if isinstance(tg, ast.Attribute) and any(norm(tg) == x or x.startswith(norm(tg) + '.') for x in attrs_in_test):
+                            names_in_test = {x.id for x in ast.walk(t) if isinstance(x, ast.Name)}
+                            if isinstance(a.value, ast.Name) and a.value.id in names_in_test:
+                                ctx.violation('PURITY', construct,
+                                              f"the cache is emptied only under `{norm(t)[:70]}`, but `{norm(a)[:50]}` has already run at that "
+                                              f"point: both sides of the comparison are the same object, the condition never holds and the "
+                                              f"cache is never emptied - stale break-downs after every re-configuration",
+                                              key="PURITY|_recompile|clear-never", where=common.loc(fi, s_))
+                                return
+    ctx.undecided('PURITY', construct, 'the cache is emptied under a condition that was not decided')
